@@ -1,8 +1,30 @@
 from props.common import *
 
+def oracle_slowrefresh(case, impl):
+    """C15, sequential consistency of a file-backed source under overlapping refreshes: once a lookup has been answered from
+    the newer file, a later lookup must not be answered from the older one."""
+    import re
+    f = case.split(" ")
+    old, new = unhex(f[3]) + b".", unhex(f[4]) + b"."
+    m = re.match(r"A=(\S+) B=(\S+) C=(\S+)$", impl)
+    if not m:
+        return "the overlapping lookups did not complete: " + impl[:80]
+    a, b, c = [b"" if x == "-" else unhex(x) for x in m.groups()]
+    for who, v in (("A", a), ("B", b), ("C", c)):
+        if v not in (old, new, b""):
+            return "lookup %s returned %r, neither file lists that name for the address" % (who, v)
+    if b == new and c != new:
+        return ("lookup B was answered %r from the new lease file, lookup C, started after B and A had returned, was answered %r: "
+                "no sequential order of the lookups and the file change gives new-then-old (an older refresh overtook a newer one)" % (b, c))
+    if c == b"":
+        return "lookup C found nothing although both lease files list the address"
+    return None
+
+
 SPEC = dict(
     lean_module="NV.Props.C15",
-    areas=[dict(name="race", n_quick=1, n_thorough=1, race=True, timeout=900)],
+    areas=[dict(name="race", n_quick=1, n_thorough=1, race=True, timeout=900),
+           dict(name="slowrefresh", n_quick=6, n_thorough=60, oracle=oracle_slowrefresh, timeout=300)],
     level_text="Lock discipline by proof over regenerated facts: every access to a field of a mutex-owning struct in discovery, "
                "resolver/endpoint, resolver, arp, ndp is re-extracted from the source with the lock mode held (CFG dataflow, callees "
                "in the caller's state) and the whole table is checked by the kernel; a theorem over an RWMutex model with any number "
